@@ -69,8 +69,12 @@ class Ctx(object):
         self.extra = {}
         self.known = load_known(prop)
         self._suppressed = set()
-        for e in self.known:
-            if e.get('status') == 'open':
+        # triggers of open findings owned by this property, and of open
+        # findings of other properties that list this one under "affects"
+        # (one root cause, one property: DESIGN 2.7)
+        for e in load_known(None):
+            if e.get('status') == 'open' and (
+                    e.get('property') == prop or prop in e.get('affects', [])):
                 self._suppressed.update(e.get('suppress', []))
         self.canary_results = {}
         self.replaying = replay
@@ -314,7 +318,11 @@ def main(prop, tier='quick', replay=None):
         viol_count.update(r.get('viol_count', {}))
         notes.extend(r.get('notes', []))
         for k, v in r.get('extra', {}).items():
-            if isinstance(v, bool) and isinstance(extra.get(k), bool):
+            if k.endswith('__set'):
+                extra.setdefault(k, set()).update(v)
+            elif k.endswith('__max'):
+                extra[k] = max(extra.get(k, v), v)
+            elif isinstance(v, bool) and isinstance(extra.get(k), bool):
                 extra[k] = extra[k] and v
             elif isinstance(v, dict) and isinstance(extra.get(k), dict):
                 for kk, vv in v.items():
@@ -330,6 +338,13 @@ def main(prop, tier='quick', replay=None):
             else:
                 extra.setdefault(k, v)
         canary.update(r.get('canary', {}))
+    for k in list(extra):
+        if k.endswith('__set'):
+            vals = sorted(extra.pop(k))
+            extra[k[:-5]] = vals[:600]
+            extra[k[:-5] + '_count'] = len(vals)
+        elif k.endswith('__max'):
+            extra[k[:-5]] = extra.pop(k)
     for r in sorted(results, key=lambda r: r.get('shard', 0)):
         for s in r.get('samples', []):
             if len(samples) < 8:
